@@ -93,6 +93,7 @@ class Inputs(html.parser.HTMLParser):
             self.fields[a['name']] = a.get('value')
 
 
+ALIAS = {'rfc822Mailbox': 'mail'}
 CANON = {'GivenName': 'givenName', 'SN': 'sn', 'MAIL': 'mail'}
 TZ = {'UTC': 'UTC0', 'east9': 'JST-9', 'west5': 'EST5'}
 
@@ -126,6 +127,8 @@ def replay_in_zone(case):
         identity['verifCustomAttribute'] = ['custom-value']
     if scn.get('keyStyle') == 'caseVariant':
         identity = dict(({'givenName': 'GivenName', 'sn': 'SN', 'mail': 'MAIL'}.get(k, k), v) for k, v in identity.items())
+    if scn.get('keyStyle') == 'alias':
+        identity['rfc822Mailbox'] = ['b@example.org', 'c@example.org']
     now = spc.now()
     subject = 'subject-' + ('%06d' % rng.randint(0, 999999))
     if scn['nameid'] == 'email':
@@ -212,11 +215,17 @@ def main():
             problems.append('subject %r read as %r' % (out['subject'], out.get('name_id')))
         expected = {}
         # an SP that asks for nothing (the unknown-attribute scenarios) is sent the whole identity
-        for local in (sorted(CANON.get(k, k) for k in out['identity']) if scn['unknownAttr'] else case['expectedAttrs']):
+        for local in (sorted(CANON.get(k, k) for k in out['identity'] if k not in ALIAS) if scn['unknownAttr'] else case['expectedAttrs']):
             wire = to_map.get(local)
             back = fro_map.get(wire, local) if wire else local
             given = dict((k.lower(), v) for k, v in out['identity'].items())
             expected[back] = sorted(v.strip() for v in given[local.lower()])
+        for k, v in out['identity'].items():
+            if k in ALIAS:
+                wire = to_map.get(ALIAS[k])
+                back = fro_map.get(wire, ALIAS[k]) if wire else ALIAS[k]
+                if back in expected:
+                    expected[back] = sorted(expected[back] + [x.strip() for x in v])
         got = dict((k, sorted(v)) for k, v in (out.get('ava') or {}).items())
         if got != expected:
             problems.append('attributes read %s, asserted %s' % (json.dumps(got)[:300], json.dumps(expected)[:300]))
